@@ -263,110 +263,159 @@ def _is_set_expr(e, setvars):
 
 
 def result_order(ctx, o):
+    """C14.3 over simulate_multiple_times and the static helpers of System it delegates to.  In every function of that closure the
+    lists of futures / results may only be built in index order: a comprehension or an append-loop over range(n) ascending submitting
+    (helper, simulation, i, *args, **kwargs); a comprehension or an append-loop walking the futures list forwards collecting .result().
+    Parameter names are mapped through the delegating calls to the names of simulate_multiple_times itself."""
     P = ctx.P
     S = P.cls('System')
-    fn = P.method(S, 'simulate_multiple_times')[1]
-    params = [a.arg for a in fn.args.args]
-    if len(params) < 2:
+    top = P.method(S, 'simulate_multiple_times')[1]
+    tparams = [a.arg for a in top.args.args]
+    if len(tparams) < 2:
         raise AnalysisError('simulate_multiple_times lost its (simulation, number_of_simulations) parameters')
-    sim, n = params[0], params[1]
-    where = 'System.simulate_multiple_times'
+    SIM, NSIM = tparams[0], tparams[1]
+    where0 = 'System.simulate_multiple_times'
+    state = {'helper_sites': 0, 'submit': 0, 'collect': 0}
 
-    def helper_call(c, idx):
-        """System._simulation_helper(simulation, <idx>, *args, **kwargs) directly or through submit(...)"""
-        args = list(c.args)
-        if call_attr(c) == 'submit':
-            if not args or ast.unparse(args[0]) != 'System._simulation_helper':
+    def analyse(fn, bind, where, depth=0):
+        """bind: local parameter name -> name in simulate_multiple_times ('simulation', 'number_of_simulations', ...)"""
+        def top_name(e):
+            return bind.get(e.id) if isinstance(e, ast.Name) else None
+
+        def asc_range(it):
+            return isinstance(it, ast.Call) and isinstance(it.func, ast.Name) and it.func.id == 'range' and len(it.args) == 1 and top_name(it.args[0]) == NSIM
+
+        def helper_call(c, idx):
+            args = list(c.args)
+            if call_attr(c) == 'submit':
+                if not args or ast.unparse(args[0]) != 'System._simulation_helper':
+                    return False
+                args = args[1:]
+            elif ast.unparse(c.func) != 'System._simulation_helper':
                 return False
-            args = args[1:]
-        elif ast.unparse(c.func) != 'System._simulation_helper':
-            return False
-        star = [a for a in args if isinstance(a, ast.Starred)]
-        kw = [k for k in c.keywords if k.arg is None]
-        return len(args) >= 2 and ast.unparse(args[0]) == sim and ast.unparse(args[1]) == idx and len(star) == 1 and len(kw) == 1
+            star = [a_ for a_ in args if isinstance(a_, ast.Starred)]
+            kw = [k for k in c.keywords if k.arg is None]
+            return len(args) >= 2 and top_name(args[0]) == SIM and ast.unparse(args[1]) == idx and len(star) == 1 and len(kw) == 1
 
-    def asc_range(it):
-        return isinstance(it, ast.Call) and isinstance(it.func, ast.Name) and it.func.id == 'range' and len(it.args) == 1 and ast.unparse(it.args[0]) == n
+        lists = {}       # local list name -> 'futures' | 'results' | None (not yet known)
+        for st in ast.walk(fn):
+            if isinstance(st, ast.Assign) and len(st.targets) == 1 and isinstance(st.targets[0], ast.Name):
+                v = st.value
+                if isinstance(v, ast.List) and not v.elts:
+                    lists.setdefault(st.targets[0].id, None)
+                elif isinstance(v, ast.ListComp):
+                    kind = comp_kind(v, lists, asc_range, helper_call, where, fn)
+                    if kind:
+                        lists[st.targets[0].id] = kind
 
-    rets = [r for r in ast.walk(fn) if isinstance(r, ast.Return) and r.value is not None]
-    o.require(len(rets) >= 1, 'simulate_multiple_times returns nothing')
-    futures_lists = set()
-    out_lists = set()
-    helper_sites = 0
-    for r in rets:
-        o.count()
-        v = r.value
-        if isinstance(v, ast.ListComp):
-            g = v.generators
-            ok = len(g) == 1 and not g[0].ifs and isinstance(g[0].target, ast.Name) and asc_range(g[0].iter) and isinstance(v.elt, ast.Call) and helper_call(v.elt, g[0].target.id)
-            if ok:
-                helper_sites += 1
-                o.witness('in-process branch')
-            else:
-                o.fail(P, where, r, 'the in-process branch does not build its result list by running the helper for i = 0 .. n-1 in ascending order', file=S.mod.path, line=r.lineno)
-        elif isinstance(v, ast.Name):
-            out_lists.add(v.id)
-        else:
+        def ret_ok(v, r):
+            if isinstance(v, ast.ListComp):
+                kind = comp_kind(v, lists, asc_range, helper_call, where, fn)
+                if kind in ('inproc', 'results'):
+                    return True
+                o.fail(P, where, r, 'the returned list is not built by running the helper for i = 0 .. n-1 ascending, nor by walking the futures forwards', file=S.mod.path, line=r.lineno)
+                return False
+            if isinstance(v, ast.Name) and v.id in lists:
+                return True           # its construction is checked below
+            if isinstance(v, ast.Call) and isinstance(v.func, ast.Attribute) and isinstance(v.func.value, ast.Name) and v.func.value.id in ('System', 'cls') and depth < 3:
+                hit = P.lookup(S, v.func.attr)
+                if hit and hit[1] == 'method' and v.func.attr != '_simulation_helper':
+                    hfn = hit[2]
+                    hp = [a_.arg for a_ in hfn.args.args]
+                    nb = {}
+                    for p_, a_ in zip(hp, v.args):
+                        if isinstance(a_, ast.Name) and a_.id in bind:
+                            nb[p_] = bind[a_.id]
+                    for k in v.keywords:
+                        if k.arg and isinstance(k.value, ast.Name) and k.value.id in bind:
+                            nb[k.arg] = bind[k.value.id]
+                    analyse(hfn, nb, f'System.{v.func.attr}', depth + 1)
+                    return True
             o.fail(P, where, r, 'unrecognised form of the returned list of systems', file=S.mod.path, line=r.lineno)
-    # worker branch: every list operation in the function is classified
-    lists = {}
-    for st in ast.walk(fn):
-        if isinstance(st, ast.Assign) and len(st.targets) == 1 and isinstance(st.targets[0], ast.Name) and isinstance(st.value, ast.List) and not st.value.elts:
-            lists[st.targets[0].id] = st
-    for st in ast.walk(fn):
-        if not isinstance(st, ast.Call):
-            continue
-        f = st.func
-        if isinstance(f, ast.Attribute) and isinstance(f.value, ast.Name) and f.value.id in lists:
+            return False
+
+        rets = [r for r in ast.walk(fn) if isinstance(r, ast.Return) and r.value is not None]
+        o.require(rets, f'{where} returns nothing')
+        for r in rets:
             o.count()
-            L = f.value.id
-            if f.attr != 'append':
-                o.fail(P, where, st, f'`{L}.{f.attr}(...)`: the lists of futures / results may only be appended to (anything else can permute the index order of the results)',
-                       file=S.mod.path, line=st.lineno)
+            ret_ok(r.value, r)
+        # every operation on a local list
+        for st in ast.walk(fn):
+            if not isinstance(st, ast.Call):
                 continue
-            a = st.args[0] if st.args else None
-            loop = _enclosing_for(S.mod, st)
-            if isinstance(a, ast.Call) and call_attr(a) == 'submit':
-                ok = loop is not None and isinstance(loop.target, ast.Name) and asc_range(loop.iter) and helper_call(a, loop.target.id) and not _has_jump(loop)
-                if ok:
-                    futures_lists.add(L)
-                    helper_sites += 1
-                    o.witness('submit in index order')
-                else:
-                    o.fail(P, where, st, 'runs are not submitted for i = 0 .. n-1 in ascending order with (simulation, i, *args, **kwargs)', file=S.mod.path, line=st.lineno)
-            elif isinstance(a, ast.Call) and call_attr(a) == 'result':
-                recv = a.func.value
-                ok = False
-                if loop is not None and not _has_jump(loop):
-                    if isinstance(loop.target, ast.Name) and isinstance(recv, ast.Name) and recv.id == loop.target.id and isinstance(loop.iter, ast.Name) and loop.iter.id in lists:
-                        ok, src = True, loop.iter.id           # for f in futures: out.append(f.result())
-                    elif isinstance(recv, ast.Subscript) and isinstance(recv.value, ast.Name) and recv.value.id in lists and isinstance(loop.target, ast.Name) and \
-                            ast.unparse(recv.slice) == loop.target.id and asc_range(loop.iter):
-                        ok, src = True, recv.value.id          # for i in range(n): out.append(futures[i].result())
-                if ok and src in lists:
-                    out_lists.add(L) if L in out_lists else None
-                    o.witness('collect in index order')
-                    o.stats.setdefault('collect', []).append(f'{L} <- {src} forwards')
-                    if src not in futures_lists:
-                        futures_lists.add(src)
-                else:
-                    o.fail(P, where, st, 'results are not collected by walking the list of futures forwards (index order)', file=S.mod.path, line=st.lineno)
-            else:
-                o.fail(P, where, st, f'unrecognised element appended to `{L}`', file=S.mod.path, line=st.lineno)
-        if isinstance(f, ast.Attribute) and f.attr in ('as_completed', 'wait', 'map') or (isinstance(f, ast.Name) and f.id in ('as_completed', 'sorted', 'reversed')):
-            if f.attr if isinstance(f, ast.Attribute) else f.id in ('as_completed', 'wait', 'sorted', 'reversed'):
+            f = st.func
+            if isinstance(f, ast.Attribute) and isinstance(f.value, ast.Name) and f.value.id in lists:
                 o.count()
-                nm = f.attr if isinstance(f, ast.Attribute) else f.id
-                if nm in ('as_completed', 'wait', 'sorted', 'reversed'):
-                    o.fail(P, where, st, f'{nm}(): results would be ordered by completion or re-ordered, not by index', file=S.mod.path, line=st.lineno)
+                L = f.value.id
+                if f.attr != 'append':
+                    o.fail(P, where, st, f'`{L}.{f.attr}(...)`: the lists of futures / results may only be appended to (anything else can permute the index order of the results)',
+                           file=S.mod.path, line=st.lineno)
+                    continue
+                a_ = st.args[0] if st.args else None
+                loop = _enclosing_for(S.mod, st)
+                if isinstance(a_, ast.Call) and call_attr(a_) == 'submit':
+                    ok = loop is not None and isinstance(loop.target, ast.Name) and asc_range(loop.iter) and helper_call(a_, loop.target.id) and not _has_jump(loop)
+                    if ok:
+                        lists[L] = 'futures'
+                        state['helper_sites'] += 1
+                        state['submit'] += 1
+                        o.witness('submit in index order')
+                    else:
+                        o.fail(P, where, st, 'runs are not submitted for i = 0 .. n-1 in ascending order with (simulation, i, *args, **kwargs)', file=S.mod.path, line=st.lineno)
+                elif isinstance(a_, ast.Call) and call_attr(a_) == 'result':
+                    recv = a_.func.value
+                    ok = False
+                    if loop is not None and not _has_jump(loop):
+                        if isinstance(loop.target, ast.Name) and isinstance(recv, ast.Name) and recv.id == loop.target.id and isinstance(loop.iter, ast.Name) and loop.iter.id in lists:
+                            ok = True
+                        elif isinstance(recv, ast.Subscript) and isinstance(recv.value, ast.Name) and recv.value.id in lists and isinstance(loop.target, ast.Name) and \
+                                ast.unparse(recv.slice) == loop.target.id and asc_range(loop.iter):
+                            ok = True
+                    if ok:
+                        lists[L] = 'results'
+                        state['collect'] += 1
+                        o.witness('collect in index order')
+                    else:
+                        o.fail(P, where, st, 'results are not collected by walking the list of futures forwards (index order)', file=S.mod.path, line=st.lineno)
+                else:
+                    o.fail(P, where, st, f'unrecognised element appended to `{L}`', file=S.mod.path, line=st.lineno)
+            nm = f.attr if isinstance(f, ast.Attribute) else (f.id if isinstance(f, ast.Name) else None)
+            if nm in ('as_completed', 'wait', 'sorted', 'reversed', 'shuffle'):
+                o.count()
+                o.fail(P, where, st, f'{nm}(): results would be ordered by completion or re-ordered, not by index', file=S.mod.path, line=st.lineno)
+        for st in ast.walk(fn):
+            if isinstance(st, ast.Subscript) and isinstance(st.value, ast.Name) and st.value.id in lists and isinstance(st.ctx, (ast.Store, ast.Del)):
+                o.fail(P, where, st, 'element of a futures / results list overwritten or deleted', file=S.mod.path, line=st.lineno)
+
+    def comp_kind(v, lists, asc_range, helper_call, where, fn):
+        """'inproc' ([helper(sim, i, ...) for i in range(n)]), 'futures' ([pool.submit(helper, sim, i, ...) for i in range(n)]),
+        'results' ([f.result() for f in <futures list>]) or None"""
+        if len(v.generators) != 1 or v.generators[0].ifs or not isinstance(v.generators[0].target, ast.Name):
+            return None
+        gen = v.generators[0]
+        e = v.elt
+        if asc_range(gen.iter) and isinstance(e, ast.Call) and helper_call(e, gen.target.id):
+            state['helper_sites'] += 1
+            if call_attr(e) == 'submit':
+                state['submit'] += 1
+                o.witness('submit in index order')
+                return 'futures'
+            o.witness('in-process branch')
+            return 'inproc'
+        if isinstance(e, ast.Call) and call_attr(e) == 'result' and isinstance(e.func.value, ast.Name) and e.func.value.id == gen.target.id and \
+                isinstance(gen.iter, ast.Name) and lists.get(gen.iter.id) == 'futures':
+            state['collect'] += 1
+            o.witness('collect in index order')
+            return 'results'
+        return None
+    analyse(top, {p_: p_ for p_ in tparams}, where0)
     o.count()
-    if helper_sites < 2:
-        o.fail(P, where, 'System._simulation_helper(simulation, i, *args, **kwargs)', f'expected the same helper to run in both the in-process and the worker branch; found {helper_sites} site(s)',
-               file=S.mod.path, line=fn.lineno)
-    for st in ast.walk(fn):
-        if isinstance(st, (ast.Subscript,)) and isinstance(st.value, ast.Name) and st.value.id in lists and isinstance(st.ctx, (ast.Store, ast.Del)):
-            o.fail(P, where, st, 'element of a futures / results list overwritten or deleted', file=S.mod.path, line=st.lineno)
-    o.sample({'in_process': 'list comprehension over range(n)', 'worker': sorted(futures_lists), 'returned': sorted(out_lists)})
+    if state['helper_sites'] < 2:
+        o.fail(P, where0, 'System._simulation_helper(simulation, i, *args, **kwargs)', f'expected the same helper to run in both the in-process and the worker branch; found {state["helper_sites"]} site(s)',
+               file=S.mod.path, line=top.lineno)
+    if state['submit'] and not state['collect']:
+        o.fail(P, where0, 'futures[i].result()', 'the results of the submitted runs are never collected in index order', file=S.mod.path, line=top.lineno)
+    o.sample({'in_process': 'helper over range(n) ascending', 'submit_sites': state['submit'], 'collect_sites': state['collect']})
 
 
 def _enclosing_for(mod, n):
@@ -496,6 +545,8 @@ def _immutable(d):
         return True          # enum member such as EventType.OTHER_LOW_PRIORITY
     if isinstance(d, ast.Name) and d.id in ('None', 'True', 'False'):
         return True
+    if isinstance(d, ast.Call) and isinstance(d.func, ast.Name) and d.func.id == 'object' and not d.args and not d.keywords:
+        return True          # a sentinel: it has no state to share
     if isinstance(d, ast.BinOp):
         return _immutable(d.left) and _immutable(d.right)
     return False
